@@ -1,5 +1,340 @@
+// seq_os.cpp -- profiles that judge OS-level behaviour through the shim/ledger:
+//   faults (C07): a workload under an injected fault plan, heal, battery, give-back
+//   ledger (C11): repeated allocate-everything / free-everything rounds; mappings and residency must not creep
+//   purge  (C18): delayed purging under a virtual clock
 #include "seq.hpp"
+#include <thread>
+#include <atomic>
+#include <algorithm>
+
 namespace seq {
-void run_os_profile(State&) {}
-void extra_result_body(FILE*) {}
+
+static const size_t KiB = 1024, MiB = 1024 * 1024;
+
+struct ArenaArea { uintptr_t lo, hi; };
+static std::vector<ArenaArea> arena_areas() {
+  std::vector<ArenaArea> v;
+  for (int id = 1; id < 130; id++) { size_t sz = 0; void* p = mi_arena_area((mi_arena_id_t)id, &sz); if (p == nullptr) break; ArenaArea a; a.lo = (uintptr_t)p; a.hi = a.lo + sz; v.push_back(a); }
+  return v;
 }
+static bool in_arena(const std::vector<ArenaArea>& as, uintptr_t lo, uintptr_t hi) {
+  for (auto& a : as) if (lo < a.hi && hi > a.lo) return true;   // a region that holds an arena (the mapping may be slightly larger than the arena)
+  return false;
+}
+
+// arena blocks in use, as reported by the allocator's own diagnostic output ("total inuse blocks : N")
+static std::string g_capture;
+static void capture_out(const char* msg, void*) { if (g_capture.size() < (1u << 22)) g_capture += msg; }
+static long arena_inuse_blocks() {
+  g_capture.clear();
+  mi_register_output(&capture_out, nullptr);
+  mi_debug_show_arenas();
+  mi_register_output(&vf_output_cb, nullptr);
+  size_t pos = g_capture.rfind("total inuse blocks");
+  long n = -1;
+  if (pos != std::string::npos) { size_t c = g_capture.find(':', pos); if (c != std::string::npos) n = strtol(g_capture.c_str() + c + 1, nullptr, 10); }
+  g_capture.clear();
+  return n;
+}
+
+struct Measure { long arena_inuse = -1; size_t mapped = 0, mapped_nonarena = 0, big_nonarena = 0, big_nonarena_bytes = 0, small_regions = 0, resident = 0, arena_resident = 0, regions = 0; std::string big_list; };
+static Measure measure() {
+  Measure m;
+  std::vector<ArenaArea> as = arena_areas();
+  std::vector<vf_os_region_t> rs(4096);
+  size_t n = vf_os_regions(rs.data(), rs.size());
+  m.regions = n;
+  for (size_t i = 0; i < n && i < rs.size(); i++) {
+    m.mapped += rs[i].len;
+    bool ar = in_arena(as, rs[i].base, rs[i].base + rs[i].len);
+    if (!ar) {
+      m.mapped_nonarena += rs[i].len;
+      if (rs[i].len >= 1 * MiB) { m.big_nonarena++; m.big_nonarena_bytes += rs[i].len; char b[96]; snprintf(b, sizeof(b), "%s0x%lx+%zuK#%llu", m.big_list.empty() ? "" : " ", (unsigned long)rs[i].base, rs[i].len / 1024, (unsigned long long)rs[i].ordinal); if (m.big_list.size() < 600) m.big_list += b; }
+      else m.small_regions++;
+    }
+  }
+  m.resident = vf_os_committed_resident(0, 0);
+  m.arena_inuse = arena_inuse_blocks();
+  for (auto& a : as) m.arena_resident += vf_os_committed_resident(a.lo, a.hi - a.lo);
+  return m;
+}
+
+// ------------------------------------------------------------------------------------------------
+// faults (C07)
+// ------------------------------------------------------------------------------------------------
+static uint64_t g_battery_runs = 0, g_fault_fired = 0, g_giveback_checked = 0;
+static std::string g_os_json;
+
+static void parse_faults(State& S) {
+  // cls:k:persistent:errno[:subkind];...
+  const char* s = S.cfg.faults.c_str();
+  while (*s) {
+    long v[5] = { 0, 0, 0, ENOMEM, 0 }; int i = 0;
+    while (*s && *s != ';') { v[i < 5 ? i : 4] = strtol(s, (char**)&s, 10); i++; if (*s == ':') s++; }
+    if (i >= 2) { if (v[4]) vf_os_plan_filter((int)v[0], (int)v[4]); vf_os_plan_fault((int)v[0], (uint64_t)v[1], (int)v[2], (int)v[3]); }
+    if (*s == ';') s++;
+  }
+}
+
+static void setup_workload(State& S) {
+  switch (S.cfg.workload) {
+    case 0: S.cfg.size_cap = 2048; break;                       // small only
+    case 1: break;                                              // mixed
+    case 2: S.cfg.size_mode = 1; S.cfg.max_live_bytes = 400u << 20; break;   // large and huge
+    case 3: S.cfg.profile = "aligned"; break;                   // aligned incl. huge alignments
+    case 4: S.cfg.threads = true; S.cfg.size_cap = 300 * KiB; break;         // thread start / exit, remote frees
+    default: break;
+  }
+}
+
+static void must(State& S, void* p, const char* what) {
+  if (p == nullptr) vf_trip("not-usable-after-heal", "C07", "after the OS grants requests again: %s failed", what);
+  (void)S;
+}
+
+static void battery(State& S) {
+  // allocate / free in every page kind, a new thread, a new heap: everything must work now
+  vf_cur_what = "battery after heal";
+  g_battery_runs++;
+  static const size_t sizes[] = { 8, 100, 1000, 5000, 20000, 60000, 200000, 3 * MiB, 20 * MiB, 40 * MiB };
+  for (size_t i = 0; i < sizeof(sizes) / sizeof(sizes[0]); i++) {
+    vf::Blk* b = do_alloc(S, (i & 1) ? EP_zalloc : EP_malloc, sizes[i]);
+    if (b == nullptr) vf_trip("not-usable-after-heal", "C07", "after the OS grants requests again: allocation of %zu bytes failed", sizes[i]);
+  }
+  { vf::Blk* b = do_alloc(S, EP_malloc_aligned, 1000); must(S, b, "aligned allocation"); }
+  mi_heap_t* h = mi_heap_new(); must(S, h, "mi_heap_new");
+  void* q = mi_heap_malloc(h, 5000); must(S, q, "allocation from a new heap"); memset(q, 1, 5000);
+  mi_heap_destroy(h);
+  std::atomic<int> ok(0);
+  std::thread t([&ok]() { void* p = mi_malloc(3000); void* p2 = mi_zalloc(100000); if (p && p2) { memset(p, 2, 3000); ok = 1; } mi_free(p); mi_free(p2); });
+  t.join();
+  if (!ok) vf_trip("not-usable-after-heal", "C07", "after the OS grants requests again: allocation in a new thread failed");
+  vf_err_reset();
+  S.sm.verify_all("after heal");
+}
+
+static void faults_print(FILE* f) {
+  fprintf(f, ",\"faults\":{\"battery_runs\":%llu,\"fired\":%llu,\"giveback_checked\":%llu}", (unsigned long long)g_battery_runs, (unsigned long long)g_fault_fired, (unsigned long long)g_giveback_checked);
+}
+
+static void run_faults(State& S) {
+  add_result_printer(&faults_print);
+  std::string keep = S.cfg.profile;
+  setup_workload(S);
+  S.cfg.allow_null = true;
+  S.cfg.generic = "C07";
+  S.sm.refutes_generic = "C07";
+  vf_crash_refutes = "C07";
+  parse_faults(S);
+  history_begin(S);
+  for (S.op_index = 0; S.op_index < S.cfg.ops; S.op_index++) history_step(S);
+  vf_cur_what = "verification at the heal point";
+  S.sm.verify_all("under injected OS refusals");
+  vf_os_counts_t c; vf_os_get_counts(&c);
+  g_fault_fired = c.injected[0] + c.injected[1] + c.injected[2] + c.injected[3];
+  bool unmap_refused = (c.injected[VF_OS_MUNMAP] + c.injected[VF_OS_MADVISE] + c.failed_real[VF_OS_MUNMAP]) > 0;
+  // injected mprotect(PROT_NONE) failures also count as refused purges
+  vf_os_heal();
+  S.cfg.allow_null = false;
+  vf_err_reset();
+  battery(S);
+  // conservation: nothing was lost
+  S.cfg.profile = keep;
+  history_end(S);     // verifies everything, walks, frees everything, forced collect, conservation
+  mi_collect(true);
+  // gives everything back (only judged when the OS refused no unmap / purge request)
+  if (!unmap_refused && c.injected[VF_OS_MPROTECT] == 0) {
+    Measure m = measure();
+    g_giveback_checked++;
+    if (m.big_nonarena > 0)
+      vf_trip("os-region-not-unmapped", "C07,C11", "after heal, freeing everything and forced collects, %zu OS regions >= 1 MiB outside arenas are still mapped: %s", m.big_nonarena, m.big_list.c_str());
+  }
+}
+
+// ------------------------------------------------------------------------------------------------
+// ledger (C11)
+// ------------------------------------------------------------------------------------------------
+static std::vector<Measure> g_series;
+static uint64_t g_ledger_blocks = 0, g_ledger_threads = 0;
+
+static void ledger_round(State& S, int rep) {
+  // the same demand in every repetition: a private PRNG seeded by the case seed only
+  vf_rng_t r; vf_rng_seed(&r, S.cfg.seed * 7919 + 17);
+  (void)rep;
+  int w = S.cfg.workload;
+  auto alloc_n = [&](int count, size_t lo, size_t hi, bool aligned_huge) {
+    for (int i = 0; i < count; i++) {
+      size_t n = lo + (size_t)vf_rng_below(&r, hi - lo + 1);
+      vf::Blk* b;
+      if (aligned_huge) {
+        size_t a = (size_t)1 << (25 + vf_rng_below(&r, 3));    // 32 .. 128 MiB
+        void* p = mi_malloc_aligned(n, a);
+        if (p == nullptr) vf_trip("wellformed-refused", "C06", "mi_malloc_aligned(%zu,%zu) failed", n, a);
+        if (((uintptr_t)p & (a - 1)) != 0) vf_trip("alignment", "C03", "mi_malloc_aligned(%zu,%zu) returned %p", n, a, p);
+        b = S.sm.add(p, n, mi_usable_size(p), 0, a, 0, false, EP_malloc_aligned); S.sm.fill(b);
+      }
+      else b = do_alloc(S, (i % 3 == 0) ? EP_zalloc : EP_malloc, n);
+      if (b) g_ledger_blocks++;
+    }
+  };
+  switch (w) {
+    case 0: alloc_n(30000, 1, 2048, false); break;                                    // small
+    case 1: alloc_n(2000, 8 * KiB, 2 * MiB, false); break;                            // medium / large
+    case 2: alloc_n(6, 40 * MiB, 200 * MiB, false); alloc_n(200, 16, 4096, false); break;   // huge
+    case 3: alloc_n(5, 1 * MiB, 70 * MiB, true); alloc_n(200, 16, 4096, false); break;      // aligned huge (alignment 32-128 MiB)
+    case 4: {                                                                          // multi-thread with thread exit
+      const int T = 4;
+      std::vector<std::vector<void*>> got(T);
+      std::vector<std::thread> ts;
+      for (int t = 0; t < T; t++) ts.emplace_back([&, t]() {
+        vf_rng_t tr; vf_rng_seed(&tr, S.cfg.seed * 31 + (uint64_t)t);
+        for (int i = 0; i < 4000; i++) { size_t n = 1 + (size_t)vf_rng_below(&tr, (i % 50 == 0) ? 300 * KiB : 3000); void* p = mi_malloc(n); if (p) { memset(p, 0x40 + t, n < 64 ? n : 64); got[t].push_back(p); } }
+        // free a third locally so that pages are partially used at exit
+        for (size_t i = 0; i < got[t].size(); i += 3) { mi_free(got[t][i]); got[t][i] = nullptr; }
+      });
+      for (auto& t : ts) t.join();
+      g_ledger_threads += T;
+      for (int t = 0; t < T; t++) for (void* p : got[t]) if (p) { mi_free(p); g_ledger_blocks++; }   // blocks of exited threads freed by the survivor
+      alloc_n(2000, 16, 8192, false);
+      break; }
+    default: break;
+  }
+  S.sm.verify_all("ledger round");
+  free_all(S);
+  vf_cur_what = "forced collect";
+  mi_collect(true);
+  mi_collect(true);
+}
+
+static void ledger_print(FILE* f) {
+  fprintf(f, ",\"ledger\":{\"blocks\":%llu,\"threads\":%llu,\"series\":[", (unsigned long long)g_ledger_blocks, (unsigned long long)g_ledger_threads);
+  for (size_t i = 0; i < g_series.size(); i++) {
+    const Measure& m = g_series[i];
+    fprintf(f, "%s{\"arena_inuse\":%ld,\"mapped\":%zu,\"nonarena\":%zu,\"big_nonarena\":%zu,\"small_regions\":%zu,\"resident\":%zu,\"arena_resident\":%zu}", i ? "," : "", m.arena_inuse, m.mapped, m.mapped_nonarena, m.big_nonarena, m.small_regions, m.resident, m.arena_resident);
+  }
+  fputs("]}", f);
+}
+
+static void run_ledger(State& S) {
+  add_result_printer(&ledger_print);
+  S.sm.refutes_generic = "C01";
+  const long purge_delay = mi_option_get(mi_option_purge_delay);
+  const int N = S.cfg.reps;
+  for (int i = 1; i <= N; i++) {
+    S.op_index = (uint64_t)i; vf_cur_op = (uint64_t)i;
+    ledger_round(S, i);
+    Measure m = measure();
+    g_series.push_back(m);
+    // (a) every region obtained directly from the OS for huge blocks / fallback segments has been unmapped again
+    if (m.big_nonarena > 0)
+      vf_trip("os-region-not-unmapped", "C11", "repetition %d: after freeing everything and forced collects %zu OS regions >= 1 MiB outside arenas are still mapped (%zu bytes): %s",
+              i, m.big_nonarena, m.big_nonarena_bytes, m.big_list.c_str());
+    // (b) arena memory is no longer committed (unless purging is disabled)
+    if (purge_delay >= 0 && m.arena_resident > 4 * MiB)
+      vf_trip("arena-still-committed", "C11", "repetition %d: after freeing everything and forced collects %zu bytes of arena memory are still committed and resident", i, m.arena_resident);
+    // (c) no creep from one repetition to the next (the first two are warm-up: arenas, thread-data cache, segment map)
+    if (i >= 3 && S.cfg.trace == 0) {
+      const Measure& p = g_series[g_series.size() - 2];
+      // memory obtained directly from the OS (outside arenas) must not accumulate
+      if (m.mapped_nonarena > p.mapped_nonarena)
+        vf_trip("mapped-grows", "C11", "repetition %d: memory mapped outside arenas grew from %zu to %zu bytes across identical repetitions (small regions %zu -> %zu)", i, p.mapped_nonarena, m.mapped_nonarena, p.small_regions, m.small_regions);
+      // arena space must not leak: blocks still claimed after everything was freed
+      if (m.arena_inuse >= 0 && p.arena_inuse >= 0 && m.arena_inuse > p.arena_inuse)
+        vf_trip("arena-blocks-leak", "C11", "repetition %d: arena blocks still in use after freeing everything grew from %ld to %ld across identical repetitions", i, p.arena_inuse, m.arena_inuse);
+      // total mapped memory incl. arenas: arenas are reserved on demand during warm-up (a failed multi-block claim reserves the next arena, up to the first
+      // 2 GiB arena), so this is judged from the 4th repetition on and only for single-threaded (deterministic) workloads
+      if (i >= 4 && S.cfg.workload != 4 && m.mapped > p.mapped)
+        vf_trip("mapped-grows", "C11", "repetition %d: mapped memory grew from %zu to %zu bytes across identical repetitions (non-arena: %zu -> %zu)", i, p.mapped, m.mapped, p.mapped_nonarena, m.mapped_nonarena);
+      if (m.resident > p.resident + 1 * MiB)
+        vf_trip("resident-grows", "C11", "repetition %d: committed resident memory grew from %zu to %zu bytes across identical repetitions", i, p.resident, m.resident);
+    }
+  }
+  check_conservation(S, "end of ledger profile", "C11,C05");
+}
+
+// ------------------------------------------------------------------------------------------------
+// purge (C18)
+// ------------------------------------------------------------------------------------------------
+static size_t g_p_peak = 0, g_p_after_free = 0, g_p_after_wait = 0, g_p_forced = 0; static uint64_t g_p_purge_calls_wait = 0, g_p_purge_calls_total = 0; static long g_p_delay = 0, g_p_mult = 0;
+
+static void purge_print(FILE* f) {
+  fprintf(f, ",\"purge\":{\"delay\":%ld,\"mult\":%ld,\"peak\":%zu,\"after_free\":%zu,\"after_wait\":%zu,\"after_forced\":%zu,\"purge_calls_during_wait\":%llu,\"purge_calls_total\":%llu}",
+          g_p_delay, g_p_mult, g_p_peak, g_p_after_free, g_p_after_wait, g_p_forced, (unsigned long long)g_p_purge_calls_wait, (unsigned long long)g_p_purge_calls_total);
+}
+
+static void run_purge(State& S) {
+  add_result_printer(&purge_print);
+  S.sm.refutes_generic = "C01";
+  const long d = mi_option_get(mi_option_purge_delay), mult = mi_option_get(mi_option_arena_purge_mult);
+  g_p_delay = d; g_p_mult = mult;
+  vf_rng_t r; vf_rng_seed(&r, S.cfg.seed);
+  // working set: small pages, large pages, whole segments
+  std::vector<vf::Blk*> smalls, larges, huges;
+  for (int i = 0; i < 40000; i++) { vf::Blk* b = do_alloc(S, EP_malloc, 64 + (size_t)vf_rng_below(&r, 1500)); if (b) smalls.push_back(b); }
+  for (int i = 0; i < 300; i++) { vf::Blk* b = do_alloc(S, EP_malloc, 100 * KiB + (size_t)vf_rng_below(&r, 400 * KiB)); if (b) larges.push_back(b); }
+  for (int i = 0; i < 6; i++) { vf::Blk* b = do_alloc(S, EP_malloc, 18 * MiB + (size_t)vf_rng_below(&r, 8 * MiB)); if (b) { memset(b->p, 0x33, b->u); S.sm.fill(b); huges.push_back(b); } }
+  for (vf::Blk* b : larges) { memset(b->p, 0x44, b->u); S.sm.fill(b); }
+  g_p_peak = vf_os_committed_resident(0, 0);
+  vf_os_counts_t c0; vf_os_get_counts(&c0);
+  // free according to the scenario
+  const std::string& sc = S.cfg.scenario;
+  if (sc == "pages") { for (vf::Blk* b : smalls) do_free(S, b); smalls.clear(); }
+  else if (sc == "segments") { for (vf::Blk* b : huges) do_free(S, b); huges.clear(); for (vf::Blk* b : larges) do_free(S, b); larges.clear(); }
+  else { free_all(S); smalls.clear(); larges.clear(); huges.clear(); }
+  g_p_after_free = vf_os_committed_resident(0, 0);
+  vf_os_counts_t c1; vf_os_get_counts(&c1);
+  // ordinary later activity without a forced collect; the virtual clock moves past the delay
+  for (int round = 0; round < 4; round++) {
+    // far beyond the delay (every further free in a segment extends its expiry by purge_extend_delay, so be generous: virtual time is free)
+    if (d > 0) { long ms = 120000 + 200 * d * (mult > 0 ? mult : 1); vf_clock_advance_ms(ms); S.n_clock_ms += (uint64_t)ms; }
+    for (int i = 0; i < 300; i++) {
+      // time keeps passing during ordinary activity (an allocation from a span that is pending purge re-arms that segment's expiry by design)
+      if (d > 0 && (i % 8) == 0) { long ms = d + 3; vf_clock_advance_ms(ms); S.n_clock_ms += (uint64_t)ms; }
+      vf::Blk* b = do_alloc(S, EP_malloc, 2000 + (size_t)vf_rng_below(&r, 6000));
+      vf::Blk* b2 = do_alloc(S, EP_malloc, 70 * KiB + (size_t)vf_rng_below(&r, 20 * KiB));
+      if (b) do_free(S, b);
+      if (b2) do_free(S, b2);
+    }
+    // ordinary activity also touches the segments that still hold live data: replace a quarter of the live large blocks
+    if (round < 2) for (size_t i = (size_t)round; i < larges.size(); i += 2) {   // (the last two rounds only do the small activity above, so nothing becomes newly purgeable)
+      do_free(S, larges[i]);
+      larges[i] = do_alloc(S, EP_malloc, 100 * KiB + (size_t)vf_rng_below(&r, 400 * KiB));
+      if (larges[i] == nullptr) { larges[i] = larges.back(); larges.pop_back(); }
+    }
+    vf_cur_what = "non-forced collect";
+    mi_collect(false);
+  }
+  g_p_after_wait = vf_os_committed_resident(0, 0);
+  vf_os_counts_t c2; vf_os_get_counts(&c2);
+  g_p_purge_calls_wait = c2.purge_calls - c1.purge_calls;
+  S.sm.verify_all("after purging");
+  // what a forced collection gives back: the yardstick (not part of the property)
+  mi_collect(true); mi_collect(true);
+  g_p_forced = vf_os_committed_resident(0, 0);
+  vf_os_counts_t c3; vf_os_get_counts(&c3);
+  g_p_purge_calls_total = c3.purge_calls - c0.purge_calls;
+  if (d < 0) {
+    if (c2.purge_calls != c0.purge_calls)
+      vf_trip("purged-although-disabled", "C18", "purge_delay=-1 but %llu purge calls (madvise DONTNEED/FREE, mprotect NONE) were made without a forced collect", (unsigned long long)(c2.purge_calls - c0.purge_calls));
+  }
+  else {
+    size_t purgeable = (g_p_after_free > g_p_forced ? g_p_after_free - g_p_forced : 0);
+    size_t left = (g_p_after_wait > g_p_forced ? g_p_after_wait - g_p_forced : 0);
+    // calibrated on the repaired tree: 'pages' leaves 8-20% (segments that saw no later activity are purged lazily by design), 'segments'/'all' 0-12%
+    const size_t pct = (sc == "pages" ? 45 : 30);
+    if (purgeable >= 16 * MiB && left * 100 > purgeable * pct)
+      vf_trip("not-purged-after-delay", "C18", "purge_delay=%ld (arena multiplier %ld), scenario %s: %zu bytes were purgeable after the frees (a forced collect returns them) but %zu bytes (%zu%%) were still committed "
+              "after the delay had expired 4 times with ordinary activity and non-forced collects (%llu purge calls in that time)", d, mult, sc.c_str(), purgeable, left, left * 100 / (purgeable ? purgeable : 1),
+              (unsigned long long)g_p_purge_calls_wait);
+  }
+  free_all(S);
+}
+
+void run_os_profile(State& S) {
+  const std::string p = S.cfg.profile;
+  if (p == "faults") run_faults(S);
+  else if (p == "ledger") run_ledger(S);
+  else run_purge(S);
+}
+
+} // namespace seq
